@@ -272,7 +272,12 @@ def _reserve_instance(args):
 
 
 def _go(ctx, run, inputs=None, env=None):
-    return goenv.run_harness(ctx, PKG, run, inputs=inputs, timeout=1500, env=env)
+    res = goenv.run_harness(ctx, PKG, run, inputs=inputs, timeout=1500, env=env)
+    x = res.get("extra") or {}
+    if x.get("harness_panics") and not any(not m["class"].startswith("L2:") for m in res.get("mismatches", [])):
+        # the harness itself panicked and no clause had failed before: not a verdict
+        raise MachineryError("%s: the harness panicked %d times without a recorded violation:\n%s" % (run, x["harness_panics"], x.get("harness_panic_sample", "")[:3000]))
+    return res
 
 
 def _job(a):
@@ -313,7 +318,9 @@ def run_part(ctx, thorough):
     dx = direct.get("extra") or {}
     if not dx.get("real_upgrader_closed_the_connection_twice") and not CLOSE_ONCE:
         ctx.notes.append("the real upgrader no longer closes a relayed connection twice after a failed security handshake")
-    if not any(k.startswith("accept_race_delivered_0") for k in dx) or not any(k.startswith("accept_race_delivered_") and not k.startswith("accept_race_delivered_0") for k in dx):
+    took_closed = any(k.startswith("accept_race_delivered_0") for k in dx)
+    took_conn = any(k.startswith("accept_race_delivered_") and not k.startswith("accept_race_delivered_0") for k in dx)
+    if not direct["mismatches"] and not (took_closed and took_conn):
         raise MachineryError("vacuous accept-race scenarios: only one branch of Accept's select was taken (%s)" % dx)
     if not direct["mismatches"] and direct["distinct"] < 90:
         raise MachineryError("vacuous voucher codec scenarios: %d cases" % direct["distinct"])
